@@ -41,16 +41,6 @@ DEFAULT_NAMES = [":-", "?-", ",", "/", ":", "non_counted_backtracking", "is", "+
                  "/\\", "\\/", "div", "//", "rdiv", "<<", ">>", "mod", "rem", "\\", ">", "<", "=\\=", "=:=",
                  ">=", "=<", "==", "\\==", "@=<", "@>=", "@<", "@>", "->", ";", "=", "=..", "\\=", "\\+", "-->"]
 
-HELPERS = (
-    ":- use_module(library(lists)).\\n"
-    ":- use_module(library(charsio)).\\n"
-    "c43_call(P,S,O,E) :- catch(op(P,S,O), error(E0,_), true), ( var(E0) -> E = ok ; E0 = type_error(list,C) -> "
-    "( C == O -> E = type_error(list,same) ; E = type_error(list,other) ) ; E = E0 ).\\n"
-    "c43_tab(Ns,L) :- findall(op(P,T,N), (member(N,Ns), current_op(P,T,N)), L).\\n"
-    "c43_cur(P,T,N,Ns,L) :- findall(op(P,T,N), (current_op(P,T,N), member(N,Ns)), L).\\n"
-    "c43_read(Cs,R) :- catch((read_from_chars(Cs,T), R = ok(T)), error(E,_), R = err(E)).\\n"
-)
-
 # ---------------------------------------------------------------- rendering
 
 
@@ -102,6 +92,24 @@ def drv_op(o):
     return "L %d %s %s" % (len(o[1]), " ".join(drv_arg(e) for e in o[1]), drv_arg(o[2]))
 
 
+def enc_arg(a):
+    """operator-free, name-free query encoding of an argument (decoded by c43_dec/2)."""
+    k = a[0]
+    if k == "v":
+        return "v"
+    if k == "i":
+        return str(a[1]) if a[1] >= 0 else "neg(%d)" % (-a[1])
+    if k == "a":
+        return "n(%d)" % NAMES.index(a[1]) if a[1] in NAMES and a[1] != "[]" else pl_atom(a[1])
+    return a[1]
+
+
+def enc_op(o):
+    if o[0] == "1":
+        return enc_arg(o[1])
+    return "l([%s],%s)" % (",".join(enc_arg(e) for e in o[1]), enc_arg(o[2]))
+
+
 def call_text(st):
     return "op(%s,%s,%s)" % (pl_arg(st["P"]), pl_arg(st["S"]), pl_op(st["O"]))
 
@@ -119,6 +127,40 @@ def sentence(toks):
     return " ".join(toks) + " ."
 
 
+def _helpers():
+    """helper predicates, consulted into `user` on a fresh machine, i.e. while the table is still the
+    default one. Query texts sent later never mention a name in play and use no operator at all
+    (names travel as n(Index), negative numbers as neg(N), lists as l(Elements,Tail)): query text is
+    read under the *current* table, which the history under test has changed."""
+    names = "[" + ",".join(pl_atom(n) for n in NAMES) + "]"
+    text = "\n".join([
+        ":- use_module(library(lists)).",
+        ":- use_module(library(charsio)).",
+        "c43_names(%s)." % names,
+        "c43_dec(E, T) :- var(E), !, T = E.",
+        "c43_dec(v, _) :- !.",
+        "c43_dec(n(I), A) :- !, c43_names(Ns), nth0(I, Ns, A).",
+        "c43_dec(neg(N), M) :- !, M is 0-N.",
+        "c43_dec(l(Es,Tl), L) :- !, c43_dec(Tl, T), c43_declist(Es, T, L).",
+        "c43_dec(X, X).",
+        "c43_declist([], T, T).",
+        "c43_declist([E|Es], T, [X|Xs]) :- c43_dec(E, X), c43_declist(Es, T, Xs).",
+        "c43_call(P0,S0,O0,E) :- c43_dec(P0,P), c43_dec(S0,S), c43_dec(O0,O), catch(op(P,S,O), error(E0,_), true), "
+        "( var(E0) -> E = ok ; E0 = type_error(list,C) -> ( C == O -> E = type_error(list,same) ; E = type_error(list,other) ) ; E = E0 ).",
+        "c43_tab(L) :- c43_names(Ns), findall(op(P,T,N), (member(N,Ns), current_op(P,T,N)), L).",
+        "c43_cur(P,T,N0,L) :- c43_dec(N0,N), c43_names(Ns), findall(op(P,T,N), (current_op(P,T,N), member(N,Ns)), L).",
+        "c43_full(L) :- findall(op(P,T,N), current_op(P,T,N), L).",
+        "c43_read(Cs,R) :- catch((read_from_chars(Cs,T), R = ok(T)), error(E,_), R = err(E)).",
+        # undo a history (several histories share one machine; the next one re-checks its initial table)
+        "c43_restore :- member(N,[foo,+,-,'|',mod]), member(S,[xfx,fy,xf]), catch(op(0,S,[N]),_,true), fail.",
+        "c43_restore :- op(500,yfx,[+,-]), op(200,fy,[+,-]), op(400,yfx,mod).",
+        ""])
+    return text.replace("\\", "\\\\").replace("\n", "\\n")
+
+
+HELPERS = None
+
+
 def esc(q):
     """line-level escaping of the harness protocol."""
     return q.replace("\\", "\\\\")
@@ -126,30 +168,45 @@ def esc(q):
 
 def build_case(cid, steps, names=NAMES, kind="random"):
     """steps: list of abstract steps. Returns the case dict (impl lines; the model line is built in
-    run() once the variant flags are known)."""
-    nl = "[" + ",".join(pl_atom(n) for n in names) + "]"
-    impl = ["R\t%s.r" % cid,
-            "L\t%s.l\tuser\t%s" % (cid, HELPERS),
-            "Q\t%s.i\t2\tc43_cur(_,_,_,%s,L)." % (cid, nl)]
+    run() once the variant flags are known). `names` is NAMES or, for the full-table witness, every
+    default name (then whole-table dumps are compared)."""
+    full = names is not NAMES and list(names) != NAMES
+    tab = "c43_full(L)." if full else "c43_tab(L)."
+    cur0 = "c43_full(L)." if full else "c43_cur(_,_,_,L)."
+    head = ["R\t%s.r" % cid, "L\t%s.l\tuser\t%s" % (cid, HELPERS)]
+    impl = ["Q\t%s.i\t2\t%s" % (cid, cur0)]
     toks = []
     for k, st in enumerate(steps):
         lid = "%s.%d" % (cid, k)
         if st["k"] == "op":
-            impl.append("Q\t%s\t2\tc43_call(%s,%s,%s,E)." % (lid, pl_arg(st["P"]), pl_arg(st["S"]), pl_op(st["O"])))
-            impl.append("Q\t%s.t\t2\tc43_tab(%s,L)." % (lid, nl))
-            impl.append("Q\t%s.u\t2\tc43_cur(_,_,_,%s,L)." % (lid, nl))
+            impl.append("Q\t%s\t2\tc43_call(%s,%s,%s,E)." % (lid, enc_arg(st["P"]), enc_arg(st["S"]), enc_op(st["O"])))
+            impl.append("Q\t%s.t\t2\t%s" % (lid, tab))
+            impl.append("Q\t%s.u\t2\t%s" % (lid, cur0))
             toks.append("op %s %s %s" % (drv_arg(st["P"]), drv_arg(st["S"]), drv_op(st["O"])))
         elif st["k"] == "cur":
-            impl.append("Q\t%s\t2\tc43_cur(%s,%s,%s,%s,L)." % (
+            impl.append("Q\t%s\t2\tc43_cur(%s,%s,%s,L)." % (
                 lid, "_" if st["p"] is None else st["p"], "_" if st["s"] is None else st["s"],
-                "_" if st["n"] is None else pl_atom(st["n"]), nl))
+                "_" if st["n"] is None else enc_arg(("a", st["n"]))))
             toks.append("cur %s %s %s" % ("_" if st["p"] is None else st["p"], "_" if st["s"] is None else st["s"],
                                           "_" if st["n"] is None else hexs(st["n"])))
         elif st["k"] == "rd":
             impl.append("Q\t%s\t2\tc43_read(\"%s\",R)." % (lid, sentence(st["toks"])))
             toks.append("rd %d %s" % (len(st["toks"]), " ".join(hexs(t) for t in st["toks"])))
-    impl = impl[:2] + [esc(l) for l in impl[2:]]
-    return {"id": cid, "kind": kind, "steps": steps, "names": names, "impl": impl, "tokens": " ".join(toks)}
+    body = [esc(l) for l in impl]
+    return {"id": cid, "kind": kind, "steps": steps, "names": list(names), "impl": head + body, "body": body,
+            "tokens": " ".join(toks)}
+
+
+def bundle(bid, group):
+    """several histories on one machine: reset + helpers once, `c43_restore` between histories."""
+    lines = ["R\t%s.r" % bid, "L\t%s.l\tuser\t%s" % (bid, HELPERS)]
+    for c in group:
+        lines.extend(c["body"])
+        lines.append("Q\t%s.z\t2\tc43_restore." % c["id"])
+    return {"id": bid, "impl": lines}
+
+
+HELPERS = _helpers()
 
 
 def model_line(c, flags):
@@ -212,7 +269,7 @@ def w_choice(rng, xs, ws):
 
 def gen_prio(rng, ill):
     if ill and rng.random() < 0.5:
-        return rng.choice([("v",), ("a", "a"), ("o", "1.5", "f(3ff8000000000000)"), ("o", "2^70", "'^'(2,70)"),
+        return rng.choice([("v",), ("a", "a"), ("o", "1.5", "f(3ff8000000000000)"), ("o", "'^'(2,70)", "'^'(2,70)"),
                            ("a", "[]")])
     if rng.random() < 0.12:
         return ("i", rng.choice(PRIOS_EXTRA))
@@ -221,7 +278,7 @@ def gen_prio(rng, ill):
 
 def gen_spec(rng, ill):
     if ill and rng.random() < 0.5:
-        return rng.choice([("v",), ("a", "yfy"), ("a", "foo"), ("i", 1), ("o", "1.5", "f(3ff8000000000000)"),
+        return rng.choice([("v",), ("a", "yfy"), ("a", "bar"), ("i", 1), ("o", "1.5", "f(3ff8000000000000)"),
                            ("o", "f(x)", "'f'('x')"), ("a", "[]")])
     return ("a", rng.choice(SPECS))
 
@@ -252,7 +309,7 @@ def gen_op(rng, ill):
             return ("L", els, ("a", "[]"))
         if k == 6:
             return ("L", els, ("v",))
-        return ("L", els, rng.choice([("a", "bar"), ("i", 1), ("a", "foo")]))
+        return ("L", els, rng.choice([("a", "bar"), ("i", 1), ("a", "foo"), ("a", "+")]))
     if r < 0.72:
         return ("1", ("a", gen_name(rng)))
     els = [("a", gen_name(rng)) for _ in range(rng.choice([1, 1, 2, 2, 3]))]
@@ -350,6 +407,7 @@ def witness_cases():
         steps.append({"k": "op", "P": P, "S": S, "O": O})
         steps.append({"k": "cur", "p": None, "s": S[1], "n": None})
     w.append(build_case("w4", steps + reads_for(NAMES), kind="witness"))
+    w.append(build_case("w5", [{"k": "op", "P": ("i", 0), "S": A("fy"), "O": ("1", A("-"))}] + reads_for(["-"]), kind="witness"))
     return w
 
 
@@ -359,11 +417,13 @@ DEFECTS = {
     "bar": {"family": "ops", "defect": "bar-in-list", "call": "op(200,xfy,['|'])"},
     "atomic": {"family": "ops", "defect": "partial-list-update", "call": "op(200,xf,[foo,+])"},
     "cur": {"family": "ops", "defect": "current_op-bound-priority", "call": "current_op(500,T,+)"},
+    "minus": {"family": "ops", "defect": "reader-minus-operand", "call": "op(0,fy,-), read \"- - a .\""},
 }
 DETAIL = {
     "bar": "op/3 accepts '|' inside a list with a priority/specifier the '|' restriction forbids (list elements skip the '|' branch of op/3)",
     "atomic": "op/3 with a list raises permission_error(create, operator, _) for a later element after having changed the table for earlier elements: a rejected call does not leave the table unchanged",
     "cur": "current_op/3 called with an instantiated priority and an unbound specifier or name does not enumerate the matching operators",
+    "minus": "after the prefix operator - has been removed, the reader accepts the operator atom - as an operand (ISO 6.3.1.3: an operator atom is not an operand; the same sentence with foo is rejected)",
 }
 
 
@@ -385,17 +445,28 @@ def judge_case(c, impl, mres, flags, stats, findings, verbose=False):
                                      case_payload(c, flags)))
         return False
     names = c["names"]
-    # initial table
-    init = impl_table(impl.get(cid + ".i"))
-    inv = True
-    hist = []
 
     def report(kind, sig, detail):
         findings.append(core.Finding(kind, sig, detail, case_payload(c, flags)))
 
+    # initial table (names in play) must be the default one
+    init = impl_table(impl.get(cid + ".i"))
+    exp0 = sorted((p, s, n) for (p, s, n) in DEFAULT_ROWS if n in names)
+    if init != exp0:
+        if not c.get("fresh", True):
+            # a later history of a bundle whose predecessor could not be undone: not judged
+            stats["skipped_restore_failed"] += 1
+            return None
+        report("violation" if init is not None else "disagreement",
+               {"family": "ops", "defect": "initial-table", "impl": str(init)[:300]},
+               "operator table of a fresh machine differs from Model/OpTable.lean::defaultTable (restricted to the names of the case)")
+        return False
+    inv = True
+    hist = []
+
     for k, (st, part) in enumerate(zip(steps, parts)):
         lid = "%s.%d" % (cid, k)
-        f = part.split("|")
+        f = part.split("@@")
         if st["k"] == "op":
             _, ferr, ftab, ierr, itab, tags, invs = f
             ftab, itab = model_table(ftab), model_table(itab)
@@ -473,16 +544,15 @@ def judge_case(c, impl, mres, flags, stats, findings, verbose=False):
                 clean = False
                 name = [t for t in st["toks"] if t not in ("a", "b", "c", "=")]
                 nm = name[0] if name else "?"
-                report("violation", {"family": "ops", "defect": "reader", "sentence": sentence(st["toks"]),
-                                     "rows": str(sorted(last_rows(c, parts, nm))), "impl": got, "iso": m},
-                       "read_from_chars/2 under the table produced by the history does not give the ISO reading")
-    # initial table check (every case): names in play
-    exp0 = sorted((p, s, n) for (p, s, n) in DEFAULT_ROWS if n in names)
-    if init != exp0:
-        clean = False
-        report("violation" if init is not None else "disagreement",
-               {"family": "ops", "defect": "initial-table", "impl": str(init)[:300]},
-               "operator table of a fresh machine differs from Model/OpTable.lean::defaultTable (restricted to the names of the case)")
+                rows = sorted(last_rows(c, parts, nm))
+                if nm == "-" and m == "syntax_error" and got.startswith("T=") and not any(r_[1] in ("fy", "fx") for r_ in rows):
+                    stats["deviations"]["minus"] = stats["deviations"].get("minus", 0) + 1
+                    report("violation", dict(DEFECTS["minus"]), DETAIL["minus"] + " — here: %s read as %s with rows %s" % (
+                        sentence(st["toks"]), got[2:], rows))
+                else:
+                    report("violation", {"family": "ops", "defect": "reader", "sentence": sentence(st["toks"]),
+                                         "rows": str(rows), "impl": got, "iso": m},
+                           "read_from_chars/2 under the table produced by the history does not give the ISO reading")
     return clean
 
 
@@ -490,7 +560,7 @@ def last_rows(c, parts, name):
     rows = [(p, s, n) for (p, s, n) in DEFAULT_ROWS if n == name]
     for st, part in zip(c["steps"], parts):
         if st["k"] == "op":
-            rows = [r for r in model_table(part.split("|")[2]) if r[2] == name]
+            rows = [r for r in model_table(part.split("@@")[2]) if r[2] == name]
     return rows
 
 
@@ -530,7 +600,7 @@ def nontrivial(c, parts):
     for st, part in zip(c["steps"], parts):
         if st["k"] != "op":
             continue
-        f = part.split("|")
+        f = part.split("@@")
         if prev is not None and f[2] != prev:
             changes += 1
         if prev is None and model_table(f[2]) != sorted(r for r in DEFAULT_ROWS if r[2] in c["names"]):
@@ -557,10 +627,16 @@ def run(ctx):
         n = 260 if tier == "quick" else 6000
         for i in range(n):
             cases.append(build_case("h%d" % i, gen_history(rng, tier)))
-    impl, _ = diff.run_cases(cases)
+    G = 8
+    singles = [c for c in cases if c["kind"] != "random"]
+    rnd = [c for c in cases if c["kind"] == "random"]
+    runs = list(singles) + [bundle("b%d" % i, rnd[i:i + G]) for i in range(0, len(rnd), G)]
+    impl, _ = diff.run_cases(runs)
     flags = measure_flags(cases, impl)
     model = core.run_model([model_line(c, flags) for c in cases])
-    stats = {"calls": 0, "cur_queries": 0, "reads": 0, "reads_skipped_noninv": 0, "reads_ambiguous": 0,
+    for i, c in enumerate(rnd):
+        c["fresh"] = (i % G == 0)
+    stats = {"skipped_restore_failed": 0, "calls": 0, "cur_queries": 0, "reads": 0, "reads_skipped_noninv": 0, "reads_ambiguous": 0,
              "iso_outcomes": {}, "deviations": {}, "cur_modes": {}, "read_outcomes": {"term": 0, "syntax_error": 0}}
     findings = []
     agree = 0
@@ -574,6 +650,9 @@ def run(ctx):
             print("replay case %s (variant flags bar/atomic/cur = %s)" % (c["id"], flags))
         evals += 1
         ok = judge_case(c, impl, mres, flags, stats, findings, verbose=rep is not None)
+        if ok is None:
+            evals -= 1
+            continue
         if ok:
             agree += 1
         parts = mres.split(" ;; ") if mres else []
@@ -595,6 +674,7 @@ def run(ctx):
         "current_op_modes": stats["cur_modes"],
         "iso_outcomes": stats["iso_outcomes"],
         "deviation_steps": stats["deviations"],
+        "histories_skipped_restore_failed": stats["skipped_restore_failed"],
         "sentences_read": stats["reads"],
         "sentences_skipped_table_outside_invariant": stats["reads_skipped_noninv"],
         "sentences_ambiguous": stats["reads_ambiguous"],
